@@ -193,15 +193,17 @@ inductive MergeRes where
   | panic
   deriving DecidableEq, Repr
 
-def chkM (op : Op) (r : Int) : MergeRes := if InRange r then .merged op r else .panic
+/-- `checked_sub(...)?` since `fix:` 58c3f94: decline when the constant does not fit -/
+def chkM (op : Op) (r : Int) : MergeRes := if InRange r then .merged op r else .none
 
 def Op.isCmp : Op → Bool
   | .lt | .le | .gt | .ge | .eq | .ne => true
   | _ => false
 
 /-- `merge_binary_expression(outer, inner = (innerOp, x, c1), c2)` (…:51-97), dev profile.
-`+`/`*` wrap since `fix:` 3b705a0; the comparison arm still computes `c2 - c1` unchecked
-(finding C02-F3 is open: the golden test `binary_sequence_tests` pins the merge of `<`). -/
+`+`/`*` wrap since `fix:` 3b705a0; the comparison arm declines when `c2 - c1` overflows since
+`fix:` 58c3f94 (finding C02-F3 stays open for ordered comparisons: the golden test
+`binary_sequence_tests` pins the merge of `<`). -/
 def mergeBinary (outer inner : Op) (c1 c2 : Int) : MergeRes :=
   match outer with
   | .add => if inner = .add then .merged .add (wrap32 (c1 + c2)) else .none
@@ -334,7 +336,8 @@ def runOptimised (L : ObsLoop) (fuel : Nat) : LoopRes :=
   | .panic => .panic
   | .nofold => .panic
   | .val stepJ =>
-    if L.singleDerived then
+    -- IV elimination needs exactly one derived variable and, since `fix:` d2fa066, a positive literal multiplier
+    if L.singleDerived ∧ 0 < L.m then
       -- prefix: `_t = m * i0; j0 = c + _t; _t' = m * bound; b' = c + _t'`
       let j0 := addT L.c (mulT L.m L.i0)
       let bJ := addT L.c (mulT L.m L.bound)
@@ -489,6 +492,8 @@ inductive Simple where
 inductive LStmt where
   | s (st : Simple)
   | sif (c : Operand) (inv : Bool) (body : List Simple)
+  /-- `IfElse` with statement-block branches and final assignments `(name, e1, e2)` -/
+  | ife (c : Operand) (s1 s2 : List Simple) (fas : List (Nat × Operand × Operand))
   deriving Repr, DecidableEq
 
 inductive Res where
@@ -505,8 +510,24 @@ def execSimple : List Simple → (Nat → Int) → List Int × Res
   | .print a :: r, ρ => let res := execSimple r ρ; (a.eval ρ :: res.1, res.2)
   | .brk a :: _, ρ => ([], .brk (a.eval ρ))
 
+/-- simultaneous binding of the final-assignment names -/
+def assignAll (ρ : Nat → Int) : List (Nat × Int) → (Nat → Int)
+  | [] => ρ
+  | (x, v) :: r => assignAll (update ρ x v) r
+
 def execL : List LStmt → (Nat → Int) → List Int × Res
   | [], ρ => ([], .next ρ)
+  | .ife c s1 s2 fas :: r, ρ =>
+    if c.eval ρ ≠ 0 then
+      match execSimple s1 ρ with
+      | (t, .next ρ') =>
+        let res := execL r (assignAll ρ' (fas.map fun fa => (fa.1, fa.2.1.eval ρ'))); (t ++ res.1, res.2)
+      | (t, other) => (t, other)
+    else
+      match execSimple s2 ρ with
+      | (t, .next ρ') =>
+        let res := execL r (assignAll ρ' (fas.map fun fa => (fa.1, fa.2.2.eval ρ'))); (t ++ res.1, res.2)
+      | (t, other) => (t, other)
   | .s st :: r, ρ =>
     match execSimple [st] ρ with
     | (t, .next ρ') => let res := execL r ρ'; (t ++ res.1, res.2)
@@ -559,6 +580,52 @@ def lvnL : List LStmt → Cx → List LStmt
     | some st' => .s st' :: lvnL r cx1
     | none => lvnL r cx1
   | .sif c inv body :: r, cx => .sif (rnO cx.ren c) inv (lvnSimple body cx).1 :: lvnL r cx
+  | .ife c s1 s2 fas :: r, cx =>
+    let r1 := lvnSimple s1 cx
+    let r2 := lvnSimple s2 cx
+    .ife (rnO cx.ren c) r1.1 r2.1
+      (fas.map fun fa => (fa.1, rnO r1.2.ren fa.2.1, rnO r2.2.ren fa.2.2)) :: lvnL r cx
+
+/-- `lvnL` together with the contexts at the end of the block (needed for the loop values of a
+`While`, which are rewritten after the body inside the same scope) -/
+def lvnLc : List LStmt → Cx → List LStmt × Cx
+  | [], cx => ([], cx)
+  | .s st :: r, cx =>
+    let (o, cx1) := lvn1 st cx
+    let (r', cx2) := lvnLc r cx1
+    (match o with | some st' => .s st' :: r' | none => r', cx2)
+  | .sif c inv body :: r, cx =>
+    let (r', cx2) := lvnLc r cx
+    (.sif (rnO cx.ren c) inv (lvnSimple body cx).1 :: r', cx2)
+  | .ife c s1 s2 fas :: r, cx =>
+    let r1 := lvnSimple s1 cx
+    let r2 := lvnSimple s2 cx
+    let (r', cx2) := lvnLc r cx
+    (.ife (rnO cx.ren c) r1.1 r2.1 (fas.map fun fa => (fa.1, rnO r1.2.ren fa.2.1, rnO r2.2.ren fa.2.2)) :: r', cx2)
+
+/-- `While`: loop variables `(name, initial value, loop value)`, a body, fuel-indexed iteration -/
+structure Loop where
+  lvs : List (Nat × Operand × Operand)
+  body : List LStmt
+  deriving Repr
+
+def iterLoop (lvs : List (Nat × Operand × Operand)) (body : List LStmt) : Nat → (Nat → Int) → Option (List Int × Res)
+  | 0, _ => none
+  | fuel + 1, ρ =>
+    match execL body ρ with
+    | (t, .next ρ') =>
+      (iterLoop lvs body fuel (assignAll ρ' (lvs.map fun lv => (lv.1, lv.2.2.eval ρ')))).map fun r => (t ++ r.1, r.2)
+    | (t, other) => some (t, other)
+
+/-- runs the loop from environment `ρ`; the result is a trap or the break value (`none` = out of fuel) -/
+def execLoop (W : Loop) (fuel : Nat) (ρ : Nat → Int) : Option (List Int × Res) :=
+  iterLoop W.lvs W.body fuel (assignAll ρ (W.lvs.map fun lv => (lv.1, lv.2.1.eval ρ)))
+
+/-- the `Statement::While` arm of LVN: initial values through the outer context, body in a pushed
+scope, loop values through the context at the end of the body -/
+def lvnLoop (W : Loop) (cx : Cx) : Loop :=
+  let r := lvnLc W.body cx
+  { lvs := W.lvs.map fun lv => (lv.1, rnO cx.ren lv.2.1, rnO r.2.ren lv.2.2), body := r.1 }
 
 /-- SSA discipline of a block relative to the names in scope: every defined name is new, every
 used name is in scope. -/
@@ -592,5 +659,58 @@ def cseHoisted (ks : List Key) (fresh : Nat) : List Simple :=
   match ks with
   | [] => []
   | (op, a, b) :: r => .bin fresh op a b :: cseHoisted r (fresh + 1)
+
+/-! ## Inlining of a call (`inlining.rs:177-438`)
+
+Callee: parameters `ps`, a block of `Binary` / call (`print`) statements, a return operand.
+`perform_inline_rewrite_on_function_stmt` replaces `c = f(args)` by the callee's body in which
+every defined name `x` is replaced by the fresh name `mg x` (`bind_with_mangled_name`: temporary
+prefix + name), every parameter by the corresponding argument (`cx.checked_bind(param, arg)`), and
+appends `c = ret + 0`. -/
+
+structure Callee where
+  ps : List Nat
+  body : List Simple
+  ret : Operand
+  deriving Repr
+
+abbrev ICx := List (Nat × Operand)
+
+/-- `inline_rewrite_expr` -/
+def irw (cx : ICx) : Operand → Operand
+  | .lit n => .lit n
+  | .var x => (cx.lookup x).getD (.var x)
+
+/-- `inline_rewrite_stmts` on the fragment; the name is bound before the operands are rewritten,
+as in the Rust struct-literal field order. -/
+def inlineBody (mg : Nat → Nat) : List Simple → ICx → List Simple × ICx
+  | [], cx => ([], cx)
+  | .bin x op a b :: r, cx =>
+    let cx1 := (x, .var (mg x)) :: cx
+    let (r', cx2) := inlineBody mg r cx1
+    (.bin (mg x) op (irw cx1 a) (irw cx1 b) :: r', cx2)
+  | .print a :: r, cx => let (r', cx2) := inlineBody mg r cx; (.print (irw cx a) :: r', cx2)
+  | .brk a :: r, cx => let (r', cx2) := inlineBody mg r cx; (.brk (irw cx a) :: r', cx2)
+
+/-- the statements that replace `c = f(args)` -/
+def inlineCall (mg : Nat → Nat) (f : Callee) (args : List Operand) (c : Nat) : List Simple :=
+  let (body, cx) := inlineBody mg f.body (f.ps.zip args)
+  body ++ [.bin c .add (irw cx f.ret) (.lit 0)]
+
+/-- environment of the callee at entry: parameters bound to the argument values -/
+def bindParams : List Nat → List Int → (Nat → Int)
+  | p :: ps, v :: vs => update (bindParams ps vs) p v
+  | _, _ => fun _ => 0
+
+/-- reference semantics of `c = f(args)` in environment `ρ` -/
+def execCall (f : Callee) (args : List Operand) (c : Nat) (ρ : Nat → Int) : List Int × Res :=
+  match execSimple f.body (bindParams f.ps (args.map (·.eval ρ))) with
+  | (t, .next σ) => (t, .next (update ρ c (f.ret.eval σ)))
+  | (t, other) => (t, other)
+
+def noBrk : List Simple → Bool
+  | [] => true
+  | .brk _ :: _ => false
+  | _ :: r => noBrk r
 
 end SamVerif.Opt
